@@ -20,7 +20,7 @@ DEADLINE = dict(h0_offdiag="def", shared1=1, shared2=2, mask_equal="def", biorth
 
 
 for _k in kv.STRUCT:
-    DEADLINE[_k] = 1 if _k in ("ragged1", "legacy_three_blocks") else "def"
+    DEADLINE[_k] = 1 if _k in ("ragged1", "legacy_three_blocks", "atol_gap") else "def"
 
 
 def stage_rank(s):
